@@ -65,6 +65,17 @@ def ddx(e, x):
                 return S.UF['cos'](ch[0]) * d(ch[0])
             if n == 'cos':
                 return -S.UF['sin'](ch[0]) * d(ch[0])
+            if n == 'pow':
+                # a ** n with an exponent that does not depend on x
+                a, ex_ = ch
+
+                def has_x(u):
+                    if u.eq(x):
+                        return True
+                    return any(has_x(c_) for c_ in u.children())
+                if not has_x(ex_):
+                    return ex_ * t.decl()(a, ex_ - 1) * d(a)
+                raise S.VCError('ddx: exponent depends on the variable')
         raise S.VCError('ddx: %s' % t.decl().name())
     return d(S.to_real(e))
 
